@@ -3,8 +3,8 @@ import ScVerif.C16.RoundedF
 # C16 — property theorems about the tolerance comparers IN ROUNDED ARITHMETIC (round 6)
 
 "... tolerance comparers for floats, timestamps and durations are reflexive and symmetric, accept exactly the
-pairs within the stated tolerance ...".  `Props.lean` proves this over exact rationals.  binary64 rounds; these
-theorems are about the arithmetic as the code performs it, for EVERY rounding function `rnd` that is monotone and
+pairs within the stated tolerance ...".  `Props.lean` proves this over exact rationals.  binary64 rounds; the
+statements here are about the arithmetic as the code performs it, for EVERY rounding function `rnd` that is monotone and
 sign-symmetric (`Rounding rnd`: IEEE round-to-nearest-even, round-toward-zero, exact arithmetic, ...), every
 fraction, margin and pair of finite values, without any "the arithmetic is exact on these inputs" hypothesis — and
 then for binary64 itself (`rne64`, proved to be such a rounding), with no hypothesis left.
